@@ -72,8 +72,21 @@ AllQueries(p) == << Q("v1", p, "versions"), Q("v1", p, "cdns"), Q("v1", p, "bgdl
 
 Prog(fam, c, d, steps) == [fam |-> fam, cfg |-> c, db |-> d, steps |-> steps]
 
+\* quick tier: only the endpoints the deviating fields are emitted on (plus one of each kind); thorough: all
+Touch(fs, names) == fs \cap names # {}
+QueriesFor(p, fs) ==
+  IF Tier # "quick" THEN AllQueries(p) ELSE
+    (IF Touch(fs, {"version", "build", "keyring", "pc", "bc", "product"})
+     THEN << Q("v1", p, "versions"), Q("v2", p, "versions"), Q("http", p, "versions"), Q("v2", p, "bgdl") >>
+     ELSE << Q("v1", p, "versions") >>) \o
+    (IF Touch(fs, {"cdn_path", "hosts", "path", "product"})
+     THEN << Q("v1", p, "cdns"), Q("v2", p, "cdns"), Q("http", p, "cdns") >>
+     ELSE << Q("http", p, "cdns") >>) \o
+    (IF Touch(fs, {"product"}) THEN << Q("v1", p, "summary") >> ELSE << >>)
+
 FieldsPrograms ==
-  {LET b == SetB(SetB(Base, s1), s2) IN Prog("fields", SetC(SetC(BaseCfg, s1), s2), <<b>>, AllQueries(b.product))
+  {LET b == SetB(SetB(Base, s1), s2) IN
+     Prog("fields", SetC(SetC(BaseCfg, s1), s2), <<b>>, QueriesFor(b.product, {s1[1], s2[1]}))
      : <<s1, s2>> \in {p \in Slots \X Slots : p[1] = p[2] \/ p[1][1] # p[2][1]}}
 
 \* ---- seeded sample of the full cross product ------------------------------
@@ -83,13 +96,13 @@ SampleProgram(k) ==
                         !.keyring = Pick(KeySeq, k, 13, 7), !.pc = Pick(PcSeq, k, 17, 11), !.bc = Pick(BcSeq, k, 19, 13),
                         !.cdn_path = Pick(PathSeq, k, 23, 17), !.product = Pick(ProductSeq, k, 29, 19)]
       c == [hosts |-> Pick(HostSeq, k, 31, 23), path |-> Pick(CfgPathSeq, k, 37, 29)]
-  IN Prog("sample", c, <<b>>, AllQueries(b.product))
+  IN Prog("sample", c, <<b>>, IF Tier = "quick" THEN QueriesFor(b.product, {"version", "cdn_path"}) ELSE AllQueries(b.product))
 SamplePrograms == {SampleProgram(k) : k \in 1..NSample}
 
 \* ---- newest build ----------------------------------------------------------
 TsSeq == IF Tier = "quick"
          THEN << "2024-01-01T00:00:00+00:00", "2024-01-01T10:00:00+09:00", "2024-01-01T05:00:00+00:00",
-                 "2023-12-31T23:30:00-01:30", "2024-01-01T06:00:00Z" >>
+                 "2023-12-31T23:30:00-01:30" >>
          ELSE << "2024-01-01T00:00:00+00:00", "2024-01-01T10:00:00+09:00", "2024-01-01T05:00:00+00:00",
                  "2024-01-01T03:00:00-05:00", "2024-01-01T12:00:00+00:00", "2023-12-31T23:30:00-01:30",
                  "2024-01-01T06:00:00Z" >>
@@ -134,9 +147,9 @@ Open(c, k, n) == [op |-> "open", c |-> c, tr |-> k.tr, n |-> n]
 Snd(c, k)     == [op |-> "send", c |-> c, cls |-> k.cls]
 Fin(c)        == [op |-> "finish", c |-> c]
 
-\* class pairs: quick = every class with itself and with the class 7 further on; thorough = all pairs
+\* class pairs: quick = every class with the class 7 further on (TCP with HTTP for most); thorough = all pairs
 NF == Len(FastClasses)
-ConcPairs == {<<i, j>> \in (1..NF) \X (1..NF) : Tier # "quick" \/ ((j - i + NF) % NF) \in {0, 7}}
+ConcPairs == {<<i, j>> \in (1..NF) \X (1..NF) : Tier # "quick" \/ ((j - i + NF) % NF) = 7}
 
 \* ---- slow / flood ------------------------------------------------------------------
 SlowPrograms ==
@@ -164,6 +177,9 @@ StaticPrograms ==
     [] Family = "unknown" -> UnknownPrograms
     [] Family = "slow"    -> SlowPrograms
     [] Family = "flood"   -> FloodPrograms
+    \* one TLC run for every static family (the programs carry their family name)
+    [] Family = "static"  -> FieldsPrograms \cup SamplePrograms \cup NewestPrograms \cup UnknownPrograms \cup
+                             SlowPrograms \cup FloodPrograms
     [] OTHER -> {}
 
 NoProg == Prog("none", BaseCfg, <<>>, <<>>)
